@@ -78,8 +78,17 @@ OPS = {
     'one': (False, ['none']),
     'bcast_add': (True, ['none']), 'bcast_mul': (True, ['none']),
     'bcast_iadd': (True, ['none']),
+    # second operand given as an array-like (nested list / ndarray) that the
+    # space converts itself
+    'add_al': (True, ['none']), 'sub_al': (True, ['none']),
+    'mul_al': (True, ['none']), 'div_al': (True, ['none']),
+    'radd_al': (True, ['none']), 'rsub_al': (True, ['none']),
+    'rmul_al': (True, ['none']), 'rdiv_al': (True, ['none']),
+    'iadd_al': (True, ['none']), 'isub_al': (True, ['none']),
+    'imul_al': (True, ['none']), 'idiv_al': (True, ['none']),
 }
-DIV_OPS = {'div', 'idiv', 'divide', 'sdiv', 'isdiv', 'rsdiv'}
+DIV_OPS = {'div', 'idiv', 'divide', 'sdiv', 'isdiv', 'rsdiv', 'div_al',
+           'rdiv_al', 'idiv_al'}
 INT_OPS = [o for o in OPS if o not in DIV_OPS and o not in ('pow', 'ipow')]
 
 
@@ -168,6 +177,8 @@ def _strategy(draw):
     is_power = sd['kind'] == 'pspace' and sd.get('power') is not None
     if op.startswith('bcast') and not is_power:
         op = 'lincomb2'
+    if op.endswith('_al') and sd['kind'] == 'pspace':
+        op = 'lincomb2'
     needs_x2, aliases = OPS[op]
     alias = draw(st.sampled_from(aliases))
     unsigned = any(l.get('dtype') == 'uint8' for l in leaves)
@@ -188,6 +199,8 @@ def _strategy(draw):
             alias in ('none', 'x1x2'):
         # layout of the separate out element
         desc['out'] = draw(vs.element_descs(sd, orders=orders, lo=0, hi=1))
+    if op.endswith('_al'):
+        desc['alkind'] = draw(st.sampled_from(['list', 'ndarray']))
     if op in ('lincomb2', 'elem_lincomb'):
         desc['a'] = draw(_scalar(kind))
         desc['b'] = draw(_scalar(kind))
@@ -209,9 +222,8 @@ def _strategy(draw):
                 desc[key]['value'] = abs(desc[key]['value'])
                 if desc[key]['cls'] == 'mone':
                     desc[key]['cls'] = 'one'
-        if op in ('sub', 'isub', 'ssub', 'rssub', 'issub', 'neg'):
-            desc['op'] = {'sub': 'add', 'isub': 'iadd', 'ssub': 'sadd',
-                          'rssub': 'rsadd', 'issub': 'isadd',
+        if op in ('ssub', 'rssub', 'issub', 'neg'):
+            desc['op'] = {'ssub': 'sadd', 'rssub': 'rsadd', 'issub': 'isadd',
                           'neg': 'pos'}[op]
     return desc
 
@@ -278,14 +290,24 @@ def run_case(desc):
         x2 = make(desc['x2'])
 
     # operand preconditions (division): replace zeros deterministically
-    if op in ('div', 'idiv', 'divide'):
+    if op in ('div', 'idiv', 'divide', 'div_al', 'idiv_al'):
         _set_values(x2, _nonzero(_snapshot(x2)))
-    if op == 'rsdiv' or (op in ('pow', 'ipow') and desc['n'] < 0):
+    if op in ('rsdiv', 'rdiv_al') or (op in ('pow', 'ipow') and desc['n'] < 0):
         _set_values(x1, _nonzero(_snapshot(x1)))
     if op in ('pow', 'ipow') and kind != 'int':
         # keep |x|**5 within float32 range
         vals = _snapshot(x1)
         _set_values(x1, [np.where(np.abs(v) > 50, v / 64, v) for v in vals])
+
+    if any(dt.kind == 'u' for dt in dts) and x2 is not x1:
+        # unsigned spaces: keep differences representable (wrap-around
+        # semantics are not asserted)
+        if op in ('sub', 'isub', 'sub_al', 'isub_al'):
+            _set_values(x2, [np.minimum(p, q) for p, q in
+                             zip(_snapshot(x2), _snapshot(x1))])
+        elif op == 'rsub_al':
+            _set_values(x1, [np.minimum(p, q) for p, q in
+                             zip(_snapshot(x1), _snapshot(x2))])
 
     v1 = _snapshot(x1)
     v2 = _snapshot(x2)
@@ -299,7 +321,15 @@ def run_case(desc):
         v2ref = [v2[i % nleaf] for i in range(len(v1))]
     else:
         v2ref = v2
-    ref, mag, k = arith.reference(op, v1, v2ref, a, b, n, dts)
+    base_op = op[:-3] if op.endswith('_al') else op
+    if base_op in ('radd', 'rmul'):
+        base_op = base_op[1:]
+    ref, mag, k = arith.reference(base_op, v1, v2ref, a, b, n, dts)
+    if op.endswith('_al'):
+        # the array-like operand: same values as x2, but not a space element
+        other = np.array(v2[0], copy=True)
+        if desc['alkind'] == 'list':
+            other = other.tolist()
 
     # --- run -------------------------------------------------------------
     def call(out):
@@ -382,6 +412,28 @@ def run_case(desc):
         tmp /= x2
         result, expect_is = tmp, x1
         modified.add(id(x1))
+    elif op.endswith('_al'):
+        import operator as _o
+        f = {'add_al': _o.add, 'sub_al': _o.sub, 'mul_al': _o.mul,
+             'div_al': _o.truediv, 'radd_al': _o.add, 'rsub_al': _o.sub,
+             'rmul_al': _o.mul, 'rdiv_al': _o.truediv, 'iadd_al': _o.iadd,
+             'isub_al': _o.isub, 'imul_al': _o.imul,
+             'idiv_al': _o.itruediv}[op]
+        args = (other, x1) if op.startswith('r') else (x1, other)
+        try:
+            result = f(*args)
+        except TypeError as e:
+            import traceback
+            tb = traceback.extract_tb(e.__traceback__)
+            if tb[-1].filename.endswith('c01_arith.py'):
+                # Python found no implementation for the operator: the
+                # space refused an array-like operand it documents to accept
+                raise Violation('C01|arraylike-rejected|{}|{}'.format(
+                    op, desc['alkind']), str(e))
+            raise
+        if op.startswith('i'):
+            expect_is = x1
+            modified.add(id(x1))
     elif op == 'bcast_add':
         result = x1 + x2
     elif op == 'bcast_mul':
@@ -484,7 +536,7 @@ def run_case(desc):
                             'leaf {} has {} {} expected {} {}'.format(
                                 i, g.shape, g.dtype, r.shape, dt))
         if dt.kind in 'iu':
-            if not np.array_equal(g, r.astype(dt)):
+            if not np.array_equal(g, np.rint(r).astype(np.int64).astype(dt)):
                 raise Violation('C01|value|' + sig_tail + '|' + alias,
                                 'integer result differs (leaf {})'.format(i))
         else:
